@@ -631,3 +631,32 @@ _hdr("C08", """   C08_struct_of_build: the STRUCTURAL half of the certificate (c
 _add("C02", [("C02_too_far_value", "SatTie.v", "pgm_too_far_value")], imports=("Fp", "GenLeaf", "SatTie"))
 _add("C07", [("C07_too_far_value", "SatTie.v", "pgm_too_far_value")], imports=("Fp", "GenLeaf", "SatTie"))
 _add("C11", [("C11_too_far_value", "SatTie.v", "pgm_too_far_value")], imports=("Fp", "GenLeaf", "SatTie"))
+
+# ---- clarifications after an independent audit of claims vs statements
+_DOUBLE_ONLY = """   NOTE (audit): the theorems above that assume `float_ok_valid c` (or `float_ok`) are usable for Floating = double only -- that
+     hypothesis is REFUTED for float slopes (cx_not_float_ok, cw_not_float_ok_valid, bx_contract); the `_std` / `_float` / `_cap` forms
+     are the ones that cover the default Floating = float."""
+for _p in ("C01", "C02", "C05", "C06", "C09", "C11", "C13", "C14", "C18"): _hdr(_p, _DOUBLE_ONLY)
+_hdr("C05", """   NOTE (audit): the capacity guard of the typed histories is LITERAL: after every step 2^(used_levels * ceil_log2 base) <= N, i.e.
+     base^used_levels <= N with N = 2^30 (double) or 2^22 - 1 - max(eps, eps_r + 1) (float) -- one factor of `base` above the largest
+     level; the constructor also needs buffer_level <= 31.  Histories beyond that are covered by the abstract-contract theorems and by
+     the run-time correspondence only.""")
+_hdr("C06", """   NOTE (audit): same capacity guard as C05 for the theorems over the real index.""")
+_hdr("C15", """   NOTE (audit): C15_hist_idx needs no capacity bound; the `_std`/`_float` forms carry the C05 capacity guard.""")
+_hdr("C07", """   NOTE (audit): C07_route_trace_partial / _bsearch / _wide assume float_ok (true for double, refuted for float on some inputs);
+     their float_ok_cap forms are closed without any floating-point hypothesis by the `_std` theorems (ComposeTrace.v) when present.""")
+_hdr("C04", """   NOTE (audit): C04_reject_spans states the existence of two fed points of the closed segment whose RANKS differ by more than
+     2*eps (ranks are increasing along the segment, so these are its first and the rejected point).""")
+_hdr("C17", """   NOTE (audit): "every indexed read is a checked read" refers to the QUERY and UPDATE paths (nth_res); the builders use
+     defaulting accessors (nth/last) at sites whose indexes are structurally in range (build_upper offsets, segments_count, the
+     compressed table) -- those are covered by the sanitizer runs, not by the `= Ok` theorems.  in_bounds admits Throw*/OutOfFuel
+     results (documented rejections, excluded fuel), never OutOfBounds/UB*.""")
+_hdr("C16", """   NOTE (audit): the bridge from the regenerated footprint list to Effects.thread (and, for C19, from the regenerated layout to
+     Ownership objects) is the decision procedure evaluated on that list; that the list faithfully describes the C++ methods is the
+     translator's job (trusted base), not a theorem.""")
+_hdr("C19", """   NOTE (audit): see C16's note: the layout-to-object bridge is the translator (trusted), the theorem is about the abstract store.""")
+_hdr("C12", """   NOTE (audit): the round-trip / reopen theorems assume wf_index of the built index (checked on examples; derived from the build
+     by MappedWf.v when present); for Floating = float the reopened index is related by index_eq (bit patterns of the reread slopes).""")
+_hdr("C20", """   NOTE (audit): static rule stated as `last_z data = sentinel`; with sorted in-type data that is "contains the reserved value"
+     (corollaries in Reject2.v when present).  "A rejected insert leaves the container unchanged" holds by construction of the pure
+     model (an Err result carries no state) and is CHECKED on the implementation by the dump comparison after every rejected call.""")
